@@ -52,18 +52,21 @@ def close(a, b, exact):
 
 class WfqPart:
     name = "wfq"
-    kinds = ["wfq", "vc", "wfq2", "vc2"]
+    kinds = ["wfq", "vc", "wfq2", "vc2", "heap"]
     serves = ["C14", "C12", "C08"]
-    coq_imports = ["From ONL Require Import Base.Cmp Elem.Packet Elem.StoreQ Elem.HeapList Elem.WFQServer Elem.WFQ Elem.VC."]
+    coq_imports = ["From ONL Require Import Base.Cmp Elem.Packet Elem.StoreQ Elem.HeapList Elem.HeapRun Elem.WFQServer Elem.WFQ Elem.VC."]
     props_files = {"C14": ["Props/C14.v"], "C12": ["Props/C12_WFQ.v"], "C08": ["Props/C08_WFQ.v"]}
     weight = 2
     nontrivial_rule = {
-        p: ("WFQ (60%) and VirtualClock (40%) with 1-4 classes, weights from {1,2,3,4} / dyadic vticks, rates 2^8..2^12, identity "
+        p: ("kinds wfq / vc (84%): one WFQ (60%) or VirtualClock (40%) with 1-4 classes, weights from {1,2,3,4} / dyadic vticks, rates 2^8..2^12, identity "
             "and many-to-one flow->class tables, 1-3 driver processes (created before or after the scheduler, with 0-3 zero-delay "
             "yields) injecting static backlogs (all at one instant before service), staggered class starts, bursts separated by "
             "idle periods that empty the scheduler, random bursty arrivals on a lattice that coincides with transmission ends, and "
-            "equal stamps by construction (equal weights and sizes at one instant); non-trivial = at least 3 packets and at least "
-            "one service decision taken among >= 2 waiting packets; distinct by hash of the case")
+            "equal stamps by construction (equal weights and sizes at one instant); kinds wfq2 / vc2 (16%): TWO instances in one "
+            "Environment sharing class ids (same or different tables) with interleaved workloads, each replayed against its own "
+            "copy of the model and monitored separately, plus an independence monitor (an action of one instance must not change "
+            "the public state of the other); non-trivial = at least 3 packets (per instance) and at least one service decision "
+            "taken among >= 2 waiting packets; distinct by hash of the case")
         for p in ("C14", "C12", "C08")}
     trusted_base = {
         p: ["WFQ/VC are driven through put() by driver processes; every kernel step of the scheduler's processes is logged by "
@@ -73,7 +76,10 @@ class WfqPart:
             "rational and vtime / finish_times / aux_vc are compared with Qeq_bool; the remaining WFQ cases use arbitrary tables "
             "from {1,2,3,4} and sizes: there service ORDER, instants and counters are still compared exactly while vtime and "
             "finish_times are compared within 1e-9 relative tolerance (a case in which two stamps tie in Q is then skipped)",
-            "VC.vc (a per-class clock the code maintains but never reads) is not modelled"]
+            "VC.vc (a per-class clock the code maintains but never reads) is not modelled",
+            "two-instance cases: run()/send_packet generator objects are renamed (runA, send_packetA, ...) from outside so that the "
+            "harness can attribute kernel steps; the model has no state shared between instances by construction (each instance is "
+            "its own srv record), which is what the independence monitor checks of the code"]
         for p in ("C14", "C12", "C08")}
     assumptions = {
         "C14": ["'the scheduler empties' is the moment its server process resumes after a transmission and finds nothing held; a "
@@ -87,6 +93,17 @@ class WfqPart:
 
     # ---- generation ---------------------------------------------------------------------------------
     def gen_case(self, rng, tier, prop_id):
+        if prop_id == "C14" and rng.random() < 0.05:
+            # the heapq transcription (Elem/Heap.v) against the real heapq on PriorityItem values, equal priorities included
+            ops, size = [], 0
+            for k in range(rng.randint(1, 40)):
+                if size and rng.random() < 0.4 or (not size and rng.random() < 0.1):
+                    ops.append(None)
+                    size = max(0, size - 1)
+                else:
+                    ops.append([rng.choice([0, 1, 1, 2, 3, 5, 8, rng.randint(-5, 30)]), k])
+                    size += 1
+            return {"kind": "heap", "ops": ops}
         r = rng.random()
         if r < 0.16:
             # two scheduler instances in ONE Environment, sharing class ids (same or different tables): instances
@@ -195,6 +212,20 @@ class WfqPart:
 
     # ---- implementation -----------------------------------------------------------------------------
     def run_impl(self, case):
+        if case["kind"] == "heap":
+            from heapq import heappush, heappop
+            from onl.sim.resources.store import PriorityItem
+            h, popped = [], []
+            for op in case["ops"]:
+                if op is None:
+                    try:
+                        x = heappop(h)
+                        popped.append([x.priority, x.item])
+                    except IndexError:
+                        popped.append(None)
+                else:
+                    heappush(h, PriorityItem(op[0], op[1]))
+            return {"popped": popped, "final": [[x.priority, x.item] for x in h], "raised": None}
         if case["kind"] in ("wfq2", "vc2"):
             obs = self._run(case["insts"], case.get("pre"))
             return {"multi": obs[:-1], "interfere": obs[-1], "raised": obs[0]["raised"]}
@@ -423,6 +454,26 @@ class WfqPart:
 
     # ---- the property as an oracle ----------------------------------------------------------------------
     def monitor(self, case, obs, prop_id):
+        if case["kind"] == "heap":
+            # heapq's contract as C14 uses it: every pop returns a least priority of what is in the heap; nothing lost
+            bag, msgs = [], []
+            it = iter(obs["popped"])
+            for op in case["ops"]:
+                if op is None:
+                    x = next(it)
+                    if x is None:
+                        if bag:
+                            msgs.append("heap-pop: pop of a non-empty heap raised IndexError")
+                        continue
+                    if x not in bag or any(y[0] < x[0] for y in bag):
+                        msgs.append(f"heap-pop: popped {x} from {sorted(bag)[:6]}: not a least priority of the heap")
+                        break
+                    bag.remove(x)
+                else:
+                    bag.append(list(op))
+            if not msgs and sorted(bag) != sorted(obs["final"]):
+                msgs.append("heap-pop: the heap lost or invented items")
+            return msgs
         if case["kind"] in ("wfq2", "vc2"):
             msgs = list(obs["interfere"])
             for c, o in zip(case["insts"], obs["multi"]):
@@ -602,6 +653,9 @@ class WfqPart:
 
     # ---- bookkeeping ------------------------------------------------------------------------------------
     def nontrivial(self, case, obs, prop_id):
+        if case["kind"] == "heap":
+            pr = [o[0] for o in case["ops"] if o is not None]
+            return len(pr) >= 4 and len(set(pr)) < len(pr) and any(o is None for o in case["ops"])
         if case["kind"] in ("wfq2", "vc2"):
             return all(self.nontrivial(c, o, prop_id) for c, o in zip(case["insts"], obs["multi"]))
         if len(case["workload"]["packets"]) < 3 or obs.get("raised"):
@@ -618,6 +672,10 @@ class WfqPart:
         return False
 
     def shrink(self, case):
+        if case["kind"] == "heap":
+            for i in range(len(case["ops"])):
+                yield {**case, "ops": case["ops"][:i] + case["ops"][i + 1:]}
+            return
         if case["kind"] in ("wfq2", "vc2"):
             for i in (0, 1):
                 for c in self.shrink(case["insts"][i]):
@@ -635,6 +693,8 @@ class WfqPart:
             yield {**case, "f2c": {f: c for f, c in case["f2c"].items() if f in used}}
 
     def describe(self, case, obs):
+        if case["kind"] == "heap":
+            return ["heap", "heap:ops=%d" % (10 * (len(case["ops"]) // 10))]
         if case["kind"] in ("wfq2", "vc2"):
             a, b = case["insts"]
             return [case["kind"], case["kind"] + (":same-tables" if a["classes"] == b["classes"] else ":different-tables")]
@@ -710,6 +770,10 @@ class WfqPart:
         return False
 
     def agree_term(self, case, obs):
+        if case["kind"] == "heap":
+            hi = lambda x: cf.pair(cf.z(x[0]), cf.z(x[1]))                              # noqa: E731
+            return (f"heap_agree {cf.lst([cf.opt(o, hi) for o in case['ops']])} {cf.lst([cf.opt(o, hi) for o in obs['popped']])} "
+                    f"{cf.lst([hi(x) for x in obs['final']])}")
         if case["kind"] in ("wfq2", "vc2"):
             if obs["interfere"]:
                 return "false (* instances interfere *)"
